@@ -351,7 +351,7 @@ def run_c19(ctx):
 PLANS["C19"] = dict(
     run=run_c19, signature=sig_default,
     technique="TLA+ spec of queries as interleaved per-visit processes over a read-only tree; TLC checks all interleavings (and that shared-scratch designs fail), emits every interleaving as a schedule replayed into gated goroutines, and validates results of free-running goroutines under the race detector",
-    level_text="TLC checks every interleaving of 3 query processes (nearest and k-nearest, one step per node visit) over a tree with removals for NoSharedWrite, Deterministic (= the same query alone) and TreeUnchanged, and confirms that the two forbidden designs (search box in the tree object; readers compacting emptied leaves) violate them. Every interleaving of two queries is then emitted as a schedule and replayed: one goroutine per query, each node visit gated through the filter callback; after it, results must equal the same query run alone and satisfy the bag-model relations, and the node tree (hook VerifWalk) must be identical. Paused queries: for seeded trees and pairs of queries of all six kinds (incl. the same point and k with different limits) query A is stopped inside its filter callback - or, for the unfiltered kinds, inside the Point() method of the first pointer it looks at - while query B runs from start to finish; B must complete and both must return what they return alone. Finally 2..32 free-running goroutines with mixed queries and per-goroutine buffers run on seeded trees under the Go race detector; a race report kills the harness and is a violation. Per goroutine the filtered questions come first or last; a 42-level tree branching at every level is walked by one query while another is stopped at its innermost point; the concurrent queries include distance limits of five times the tree's width, and every twelfth tree is one nothing was ever added to. Half of the trees give their goroutines result windows carved from one shared array (capacity reaching into the neighbours' windows: a query writes its k results and nothing else); every fourth tree has 170..230 points and lost half of them.",
+    level_text="TLC checks every interleaving of 3 query processes (nearest and k-nearest, one step per node visit) over a tree with removals for NoSharedWrite, Deterministic (= the same query alone) and TreeUnchanged, and confirms that the two forbidden designs (search box in the tree object; readers compacting emptied leaves) violate them. Every interleaving of two queries is then emitted as a schedule and replayed: one goroutine per query, each node visit gated through the filter callback; after it, results must equal the same query run alone and satisfy the bag-model relations, and the node tree (hook VerifWalk) must be identical. Paused queries: for seeded trees and pairs of queries of all six kinds (incl. the same point and k with different limits) query A is stopped inside its filter callback - or, for the unfiltered kinds, inside the Point() method of the first pointer it looks at - while query B runs from start to finish; B must complete and both must return what they return alone. Finally 2..32 free-running goroutines with mixed queries and per-goroutine buffers run on seeded trees under the Go race detector; a race report kills the harness and is a violation. Per goroutine the filtered questions come first or last; a 42-level tree branching at every level is walked by one query while another is stopped at its innermost point; the concurrent queries include distance limits of five times the tree's width, and every twelfth tree is one nothing was ever added to. Half of the trees give their goroutines result windows carved from one shared array (capacity reaching into the neighbours' windows: a query writes its k results and nothing else); every fourth tree has 170..230 points and lost half of them. Every goroutine also asks 4 000 plain nearest-point questions over 600 places shared by all (answers taken beforehand), gives twenty searches up through a panicking filter - each followed by an ordinary search that must be ordinary - and half of them ask a second pre-built tree for its 300 nearest in between; some goroutines use k = 300 on the tree itself.",
     level_note="Schedules are at filter-call granularity (the only hookless yield point); instructions inside one visit are not interleaved deterministically - that is what the race-detector stage covers probabilistically. Trusted: TLC, the Go race detector, the VerifWalk hook.",
     rule="one event = one tree-building operation or one goroutine's query batch (concurrent results, the same queries alone, node tree before/after); every event non-trivial; distinct = distinct event text",
     assumptions=["goroutine scheduling between gates is sequentialised by the controller; within a visit the Go scheduler decides"],
@@ -441,7 +441,7 @@ def sig_c06(ev):
 PLANS["C06"] = dict(
     run=run_c06, signature=sig_c06,
     technique="TLA+ value model (structural equality, tight bound, set-theoretic box operations, shoelace orientation); TLC checks the lattice laws on the model and validates traces of real Clone/Equal/Bound/Union/Extend/Contains/Intersects/Reverse/Orientation calls incl. every single-vertex in-place edit",
-    level_text="TLC checks the lattice laws (idempotent, commutative, associative, empty = identity, contains/extends/intersects consistency) for all pairs and triples of boxes over 3 (quick) / 4 (thorough) ranks including the empty bound, and reversal/orientation/tight-bound laws for all rings of <=4 vertices on a small grid. For seeded shapes of all nine kinds with nil and empty slices, empty members first/last, single-vertex members and nested collections, the harness records: the clone (generic and typed), the interned backing-array addresses of both values, and the value of both after editing each vertex of the clone and then of the original in place; orb.Equal on copied / perturbed / re-nested / truncated pairs and triples; Bound(); the Bound methods on pairs/triples; Reverse and Orientation. TLC requires each to equal the model (clone equal and alias-free, Equal = structural equality and an equivalence, Bound = tight box of the counting vertices, method results = box operations, double reversal = identity, orientation = shoelace sign negated by reversal). Equal is also asked about a Bound and the Ring / Polygon / Collection that has exactly that box, in either argument order. Orientation is also asked of the same ring translated exactly by 1e8 .. 2^45; the lattice laws also take empty bounds of other spellings (Min and Max the wrong way round in x, in y, a box padded inwards beyond its size); equality is also asked of pairs that differ in one coordinate by one unit in the last place, a relative 1e-14 or 1e-12, at magnitudes 1 .. 1e8. A copy with every zero of the other sign is equal; bounds are equal exactly when their corners are. A ring that reads the same in both directions (a, b, c, b, a over arbitrary decimal coordinates) has no orientation; the lattice ring with every edge cut into 32 or 64 equal parts (96..384 vertices, any start) winds like the original. Bound(), Union, Extend, Contains and Intersects also run on the lattice figure stretched by a strictly increasing axis map that sends its outermost lines to +-Inf or +-MaxFloat64 (half planes, the whole plane). The family starts with 30 000 x 17 clone / equal / bound calls on nil and empty values of every kind (nothing may depend on how many calls came before).",
+    level_text="TLC checks the lattice laws (idempotent, commutative, associative, empty = identity, contains/extends/intersects consistency) for all pairs and triples of boxes over 3 (quick) / 4 (thorough) ranks including the empty bound, and reversal/orientation/tight-bound laws for all rings of <=4 vertices on a small grid. For seeded shapes of all nine kinds with nil and empty slices, empty members first/last, single-vertex members and nested collections, the harness records: the clone (generic and typed), the interned backing-array addresses of both values, and the value of both after editing each vertex of the clone and then of the original in place; orb.Equal on copied / perturbed / re-nested / truncated pairs and triples; Bound(); the Bound methods on pairs/triples; Reverse and Orientation. TLC requires each to equal the model (clone equal and alias-free, Equal = structural equality and an equivalence, Bound = tight box of the counting vertices, method results = box operations, double reversal = identity, orientation = shoelace sign negated by reversal). Equal is also asked about a Bound and the Ring / Polygon / Collection that has exactly that box, in either argument order. Orientation is also asked of the same ring translated exactly by 1e8 .. 2^45; the lattice laws also take empty bounds of other spellings (Min and Max the wrong way round in x, in y, a box padded inwards beyond its size); equality is also asked of pairs that differ in one coordinate by one unit in the last place, a relative 1e-14 or 1e-12, at magnitudes 1 .. 1e8. A copy with every zero of the other sign is equal; bounds are equal exactly when their corners are. A ring that reads the same in both directions (a, b, c, b, a over arbitrary decimal coordinates) has no orientation; the lattice ring with every edge cut into 32 or 64 equal parts (96..384 vertices, any start) winds like the original. Bound(), Union, Extend, Contains and Intersects also run on the lattice figure stretched by a strictly increasing axis map that sends its outermost lines to +-Inf or +-MaxFloat64 (half planes, the whole plane). The family starts with 30 000 x 17 clone / equal / bound calls on nil and empty values of every kind (nothing may depend on how many calls came before). Sizes: the box of 2^20 .. 2^20+7 (2^21+3 thorough) vertices with the extremes among the last few, through six kinds; collections of 10 001 .. 40 000 (200 000) nested collections cloned, compared and bounded (harness-side, verdict by TLC); nested collections that are views all[:1], all[:2], all of one member array are bounded as they are.",
     level_note="Small integer coordinates (exact); NaN is not generated (== is not reflexive on it). Typed-nil members inside collections are not generated. Trusted: TLC, Json module, unsafe.SliceData address interning.",
     rule="one event = one observation (clone with all its single-vertex edits, an Equal pair/triple, a Bound, a Bound-method tuple, a Reverse, an Orientation); non-trivial = at least one vertex edit / non-empty bound / orientation != 0 / all Equal and Bound-method events; distinct = distinct event text",
     assumptions=["a slice's backing array is identified by its data pointer (sub-slices of one array would need offsets; Clone never sub-slices)"],
@@ -592,7 +592,7 @@ def run_c17(ctx):
 PLANS["C17"] = dict(
     run=run_c17, signature=sig_default,
     technique="TLA+ closed form of evenly spaced arclength positions in exact rational arithmetic and a transcription of the cumulative-distance walk; TLC checks walk = closed form and validates traces of real Resample/ToInterval calls on integer-length paths",
-    level_text="TLC checks that the transcription of the cumulative-distance walk (with its pinned last step) returns exactly N points equal to the closed form k*L/(N-1) for every axis-aligned path of <=3 (4) segments of length 0..3 (4) and N to 8 (12). Real calls are recorded for every path of <=3 (4) steps from a set of axis-aligned, Pythagorean and zero-length steps and N in -1..13, for seeded longer paths with N to 25, intervals d = dn/dd (incl. d <= 0, d > L, d | L), an L1 distance function on arbitrary integer paths, nil/empty/one-vertex/all-coincident lines; outputs are projected to the event's exact lattice 1/((N-1)*lcm lengths) and TLC requires equality with the closed form and the edge-case rules. For the great-circle distance functions TLC checks count, bit-identical endpoints and order. Two thirds of the input lines are the head of a longer buffer whose spare capacity holds foreign points. Every other call the line lives in one of two long-lived buffers that held other lines before; two-leg paths are also run sixty times larger (coordinate differences beyond 180 and 360). Vertex-less and one-vertex lines go through every N and d; the very same slice (spare capacity and all) is resampled a second time at another resolution and the first result must stay what it was; the inexact-coordinate family runs at scales 2^-50 .. 2^30. Lines written across the antimeridian with the vertex pair (180, y), (-180, y) under both geodesic functions (every point on a segment of the line). ToInterval is also asked for intervals one float64 above and below total / parts (judged when the caller's own quotient lies on that side of the whole number); a line of fewer than two vertices comes back the value it was (an empty line stays empty, nil stays nil). Mirror-image lines (inexact segment lengths out, the middle vertex repeated, the same lengths back) put points exactly on the repeated vertex: every point within 1e-9 of a segment; geodesic paths of equal lon/lat steps through the middle latitudes with the way to every point measured (k/(N-1) of the whole within 1.5 % of a segment); four goroutines resample at the same time and get what they get alone.",
+    level_text="TLC checks that the transcription of the cumulative-distance walk (with its pinned last step) returns exactly N points equal to the closed form k*L/(N-1) for every axis-aligned path of <=3 (4) segments of length 0..3 (4) and N to 8 (12). Real calls are recorded for every path of <=3 (4) steps from a set of axis-aligned, Pythagorean and zero-length steps and N in -1..13, for seeded longer paths with N to 25, intervals d = dn/dd (incl. d <= 0, d > L, d | L), an L1 distance function on arbitrary integer paths, nil/empty/one-vertex/all-coincident lines; outputs are projected to the event's exact lattice 1/((N-1)*lcm lengths) and TLC requires equality with the closed form and the edge-case rules. For the great-circle distance functions TLC checks count, bit-identical endpoints and order. Two thirds of the input lines are the head of a longer buffer whose spare capacity holds foreign points. Every other call the line lives in one of two long-lived buffers that held other lines before; two-leg paths are also run sixty times larger (coordinate differences beyond 180 and 360). Vertex-less and one-vertex lines go through every N and d; the very same slice (spare capacity and all) is resampled a second time at another resolution and the first result must stay what it was; the inexact-coordinate family runs at scales 2^-50 .. 2^30. Lines written across the antimeridian with the vertex pair (180, y), (-180, y) under both geodesic functions (every point on a segment of the line). ToInterval is also asked for intervals one float64 above and below total / parts (judged when the caller's own quotient lies on that side of the whole number); a line of fewer than two vertices comes back the value it was (an empty line stays empty, nil stays nil). Mirror-image lines (inexact segment lengths out, the middle vertex repeated, the same lengths back) put points exactly on the repeated vertex: every point within 1e-9 of a segment; geodesic paths of equal lon/lat steps through the middle latitudes with the way to every point measured (k/(N-1) of the whole within 1.5 % of a segment); four goroutines resample at the same time and get what they get alone. Lines that end with the antimeridian pair (180, y), (-180, y) (ends compared bit for bit); sizes: 2^20+1 .. 3 000 000 (2^23) intervals on a short line, lines of 2^20 .. 2^20+3 (2^22+5) segments of arbitrary lengths.",
     level_note="Exact positions only for integer segment lengths (residual > 1e-7 lattice units = 'offlattice' event, rejected). For geo.Distance / DistanceHaversine only count, endpoints and order are judged. Trusted: TLC, Json module, lattice projection, rank interning.",
     rule="one event = one real Resample/ToInterval call; non-trivial = N >= 2 on a line of positive length; distinct = distinct event text",
     assumptions=["segment lengths are integers under the distance function used (by construction of the step set / L1 metric)"],
@@ -646,7 +646,7 @@ def sig_c16(ev):
 PLANS["C16"] = dict(
     run=run_c16, signature=sig_c16,
     technique="TLA+ region predicates (exact even-odd membership on a query lattice, ring shape/winding, open-path closure along the box outline) and the aroundBound corner tables; TLC model-checks the tables and validates traces of the real smartclip calls",
-    level_text="TLC checks the corner-walk tables of aroundBound (cyclic, inverse, terminating, adjacent, turning as requested). For triangles of a 4x4 (5x5) grid x boxes x both orientations, and seeded simple star-shaped rings of 3..12 vertices with vertices on box edges and corners, polygons with an interior hole, two-member multipolygons, through Ring/Polygon/MultiPolygon/Geometry, TLC requires: every output ring closed and inside the closed box, outers wound as requested and holes opposite (zero-area two-point rings from corner touches allowed), a region wholly inside returned unchanged, one wholly outside yielding nothing, and - whenever the input boundary meets the open box - q in output iff q in input for every quarter-step lattice point strictly inside the box and off all boundaries. Open sub-paths of such rings cut at the box are judged against the path closed along the box outline in the requested direction. Comb-shaped polygons (a spine outside the box, 2..3 teeth reaching in, so the outer ring is cut into several pieces) with half-unit holes inside the teeth, through Polygon, Geometry and MultiPolygon; unit-square holes anywhere on the grid. Crossing rings handed over without their closing vertex (closed implicitly when an endpoint is in the box), polygons passed as members of a Collection, holes whose first vertex is level with an odd number of outer-ring vertices, unclosed triangles in the exhaustive part. The recorded finding's input class is the narrowed one (TouchFailProne: by side and direction of the incoming edge, see known_findings.json); elsewhere the region predicate is demanded of touching vertices too. Nested thick arches with a tooth stand on each side of the box in both windings (seven pieces: Go's sort leaves the insertion-sort regime). The generic entry point must answer nil when nothing remains. Every call sees the figure at its own size or scaled exactly by 2^30, 2^-20 or 2^44. Rectangles with one or two slits cut in from one side (ending inside the box or running through it) are handed over through per-axis strictly increasing tables - box from -2 to 3 and -1 to 2, slit walls 2e-17 apart next to zero, subnormal, or a hair apart - which is exact for figures with axis-parallel edges (middle mapped to middle, because aroundBound inserts the midpoint of a side); TLC judges the lattice figure. Sizes: combs of 300 .. 33 000 (66 000 thorough) teeth through the top of the box, ending inside it or running through (more than 2^15 and 2^16 pieces in one call), judged by the harness (polygon count, no holes, winding, vertices in the box, exact area, sample points in every 1/200th slit and tooth) with the verdict checked by TLC. A band across the box with a triangular hole that cuts a corner off the box without a vertex in it (all corners, both windings, every entry point); open two-vertex paths from outside to outside among the open-path events.",
+    level_text="TLC checks the corner-walk tables of aroundBound (cyclic, inverse, terminating, adjacent, turning as requested). For triangles of a 4x4 (5x5) grid x boxes x both orientations, and seeded simple star-shaped rings of 3..12 vertices with vertices on box edges and corners, polygons with an interior hole, two-member multipolygons, through Ring/Polygon/MultiPolygon/Geometry, TLC requires: every output ring closed and inside the closed box, outers wound as requested and holes opposite (zero-area two-point rings from corner touches allowed), a region wholly inside returned unchanged, one wholly outside yielding nothing, and - whenever the input boundary meets the open box - q in output iff q in input for every quarter-step lattice point strictly inside the box and off all boundaries. Open sub-paths of such rings cut at the box are judged against the path closed along the box outline in the requested direction. Comb-shaped polygons (a spine outside the box, 2..3 teeth reaching in, so the outer ring is cut into several pieces) with half-unit holes inside the teeth, through Polygon, Geometry and MultiPolygon; unit-square holes anywhere on the grid. Crossing rings handed over without their closing vertex (closed implicitly when an endpoint is in the box), polygons passed as members of a Collection, holes whose first vertex is level with an odd number of outer-ring vertices, unclosed triangles in the exhaustive part. The recorded finding's input class is the narrowed one (TouchFailProne: by side and direction of the incoming edge, see known_findings.json); elsewhere the region predicate is demanded of touching vertices too. Nested thick arches with a tooth stand on each side of the box in both windings (seven pieces: Go's sort leaves the insertion-sort regime). The generic entry point must answer nil when nothing remains. Every call sees the figure at its own size or scaled exactly by 2^30, 2^-20 or 2^44. Rectangles with one or two slits cut in from one side (ending inside the box or running through it) are handed over through per-axis strictly increasing tables - box from -2 to 3 and -1 to 2, slit walls 2e-17 apart next to zero, subnormal, or a hair apart - which is exact for figures with axis-parallel edges (middle mapped to middle, because aroundBound inserts the midpoint of a side); TLC judges the lattice figure. Sizes: combs of 300 .. 33 000 (66 000 thorough) teeth through the top of the box, ending inside it or running through (more than 2^15 and 2^16 pieces in one call), judged by the harness (polygon count, no holes, winding, vertices in the box, exact area, sample points in every 1/200th slit and tooth) with the verdict checked by TLC. A band across the box with a triangular hole that cuts a corner off the box without a vertex in it (all corners, both windings, every entry point); open two-vertex paths from outside to outside among the open-path events. Multi-polygons of one member that crosses a side of the box (with a hole crossing it too) and two or three members wholly inside, with and without holes, in any order, turned to all four sides.",
     level_note="Rings that surround the box or only touch it are outside the property's domain (the spec evaluates 'boundary meets the open box' itself). Inputs are simple by construction (strictly increasing exact angle about an interior point). Lattice 1/60, residual > 1e-7 = 'offlattice'. Trusted: TLC, Json module, lattice projection, clip.LineString(OpenBound) to cut the open sub-paths.",
     rule="one event = one real smartclip call; non-trivial = non-empty output different from the input; distinct = distinct event text",
     assumptions=["input rings are simple and correctly wound (constructed, not checked by the code)"],
@@ -685,7 +685,7 @@ def run_c02(ctx):
 PLANS["C02"] = dict(
     run=run_c02, signature=sig_default,
     technique="TLA+ abstract JSON documents (GeomDoc / FeatureDoc / FCDoc, RFC 7946 shape predicate, Norm); TLC checks the document model on a bounded shape set and validates the documents parsed out of the real JSON bytes and the values decoded back through JSON and BSON",
-    level_text="TLC checks on the 534-shape bounded set that the specified document of every geometry is well-formed RFC 7946 (type names the kind, coordinates nested exactly as deep as the kind requires, collections use geometries), that a ring or bound gives the polygon's document and an empty collection null. For seeded geometries (nine kinds, nested collections incl. empty ones, coordinates over the full finite float64 range), features (id absent / string / number, properties over null, bool, number, string, array, object, optional bbox) and feature collections with foreign members, the harness parses the produced JSON generically (encoding/json, numbers -> strconv -> bit id); TLC requires the document to equal the specified one exactly, the values decoded through UnmarshalGeometry / UnmarshalFeature / UnmarshalFeatureCollection and through BSON to equal the normal form of the input, and the re-marshalled JSON to be byte-identical. The same bytes are also decoded into Geometry / Feature / FeatureCollection values that already hold the results of earlier events (a decoding loop reusing one variable) and must give the same value; json.Marshal and a Geometry literal around the value must give the same bytes as MarshalJSON / bson.Marshal of NewGeometry; the bytes returned for the previous event must still be what they were. Integer feature ids, also beyond 2^53, must come back from BSON as the same integer (bsonid events). The typed helper values (geojson.Point .. MultiPolygon) live across events as receivers: each decodes the next document of its kind, must return it and leave what it returned before intact; features and collections are also handed to both encoders by value; a long-lived Geometry value gets its Coordinates field reassigned from event to event. Coordinates include values widened from float32. Feature ids at 2^53, 2^62, +-2^63 and 2^64; one long-lived Geometry takes JSON and BSON documents in turn; foreign-member names with '.', '$', their full-width twins and names that mean something elsewhere (_id, id, geometry, properties, coordinates); empty non-nil ExtraMembers. Everything the marshal calls of one event returned (also the null document marshalled by itself) is verified unchanged at the next event and then overwritten, as a caller may. Property names that collide under common 32-bit hashes (FNV-1, FNV-1a, CRC-32, Adler-32, x31, x33; equal length, found by a birthday search at start-up) appear together and alone across events; bboxes at the origin, of no extent, with six numbers.",
+    level_text="TLC checks on the 534-shape bounded set that the specified document of every geometry is well-formed RFC 7946 (type names the kind, coordinates nested exactly as deep as the kind requires, collections use geometries), that a ring or bound gives the polygon's document and an empty collection null. For seeded geometries (nine kinds, nested collections incl. empty ones, coordinates over the full finite float64 range), features (id absent / string / number, properties over null, bool, number, string, array, object, optional bbox) and feature collections with foreign members, the harness parses the produced JSON generically (encoding/json, numbers -> strconv -> bit id); TLC requires the document to equal the specified one exactly, the values decoded through UnmarshalGeometry / UnmarshalFeature / UnmarshalFeatureCollection and through BSON to equal the normal form of the input, and the re-marshalled JSON to be byte-identical. The same bytes are also decoded into Geometry / Feature / FeatureCollection values that already hold the results of earlier events (a decoding loop reusing one variable) and must give the same value; json.Marshal and a Geometry literal around the value must give the same bytes as MarshalJSON / bson.Marshal of NewGeometry; the bytes returned for the previous event must still be what they were. Integer feature ids, also beyond 2^53, must come back from BSON as the same integer (bsonid events). The typed helper values (geojson.Point .. MultiPolygon) live across events as receivers: each decodes the next document of its kind, must return it and leave what it returned before intact; features and collections are also handed to both encoders by value; a long-lived Geometry value gets its Coordinates field reassigned from event to event. Coordinates include values widened from float32. Feature ids at 2^53, 2^62, +-2^63 and 2^64; one long-lived Geometry takes JSON and BSON documents in turn; foreign-member names with '.', '$', their full-width twins and names that mean something elsewhere (_id, id, geometry, properties, coordinates); empty non-nil ExtraMembers. Everything the marshal calls of one event returned (also the null document marshalled by itself) is verified unchanged at the next event and then overwritten, as a caller may. Property names that collide under common 32-bit hashes (FNV-1, FNV-1a, CRC-32, Adler-32, x31, x33; equal length, found by a birthday search at start-up) appear together and alone across events; bboxes at the origin, of no extent, with six numbers. Decoded features are written into by the harness once they have been read (no later decode shows it); string ids of 24 hex digits in either case; boxes equal as values and differing in the sign of a zero in consecutive events; the value NewGeometry made is overwritten after marshalling.",
     level_note="That a decimal string denotes a float64 is decided by strconv + bit interning in the harness. Geometries containing nil slices marshal to \"coordinates\": null and are not generated (the quantifier does not name them); a bare top-level empty collection is not a geometry document and is only exercised inside features. Foreign members named exactly type / bbox / features are excluded by the quantifier (other spellings such as Type, Features are generated). The six helper types are exercised in C05. Trusted: TLC, Json module, encoding/json and bson as lenses on the bytes, strconv.",
     rule="one event = one geometry / feature / feature collection with its JSON document and both decoded values; all events non-trivial; distinct = distinct event text",
     assumptions=["encoding/json (UseNumber) and go.mongodb.org bson read the produced bytes faithfully"],
@@ -722,7 +722,7 @@ def sig_c05(ev):
 PLANS["C05"] = dict(
     run=run_c05, signature=sig_c05,
     technique="TLA+ reference decoders of the codec specs as outcome oracles plus an allocation bound; TLC enumerates the finite hostile-input spaces named by the property for replay, and judges every recorded decoder outcome",
-    level_text="TLC emits exactly the finite spaces the property names - every WKB header (order byte x type word x boundary count x payload shape), every WKT sentence of <=4 (5) tokens over a 16-token alphabet, every MVT command-word sequence of <=4 words over a 14-word alphabet (incl. MoveTo, LineTo and ClosePath words claiming millions of points) - and the harness runs every decoder entry point on each (WKB/EWKB byte, stream, scanner x 10 destinations incl. hex and SRID-prefix framing; wkt.Unmarshal and the 7 typed parsers; mvt.Unmarshal), on every truncation of every header, on all 0..2-byte tiles, and on seeded structure-aware mutations (truncate, bit flip, count inflation, splice, nesting, duplication, GeoJSON member edits) of valid WKB/EWKB, WKT, MVT, GeoJSON and BSON encodings. Each call runs under recover, a watchdog and a TotalAlloc delta. TLC requires: a value or an error (never a panic or hang), allocation <= 4096*len + 8 MB, and - where the reference decoder of the codec spec fixes the meaning - agreement: bytes the WKB grammar accepts decode on every path to one and the same value with stable re-encoding, properly-headed but truncated / over-counted bytes fail on every path, WKT sentences the grammar accepts and MVT command streams the state machine accepts decode to exactly the specified value. Also: well-formed BSON documents whose members have the wrong kind (number, null, document, binary, array, boolean) at both levels for every BSON entry point; one layer of 2000 keys x 3000 features (allocation must follow the input size, not keys x features); gzipped tiles whose trailer claims 0 .. 4 GB of content and gzip streams with seeded damage. Long-lived scanners see a well-formed SRID-prefixed row before every input. Blank and almost blank values of 0..12 bytes go to the scanners, WKT parsers and JSON entry points; 99..1000 genuine members stand under counts of n+1 .. 2^32-1 for every container kind, both byte orders, alone and inside multi-polygons / collections (allocation follows the bytes that are there, also once the preallocation cap is used up); extended WKT spellings (SRID=... with and without ';', Z / M suffixes), complete and cut short, also as collection members. Every container kind x member kind x member count 0 / 1 x 0..24 bytes behind the member's header; gzip in gzip (in gzip) around 64 KB .. 16 MB (32 MB thorough) of zeros; protobuf wire shapes (every wire type, groups, unknown fields, lengths and varints at the ends of their ranges, over-long varints), also inside a layer; the exported Unmarshal methods of the four generated vectortile message types count as decoders.",
+    level_text="TLC emits exactly the finite spaces the property names - every WKB header (order byte x type word x boundary count x payload shape), every WKT sentence of <=4 (5) tokens over a 16-token alphabet, every MVT command-word sequence of <=4 words over a 14-word alphabet (incl. MoveTo, LineTo and ClosePath words claiming millions of points) - and the harness runs every decoder entry point on each (WKB/EWKB byte, stream, scanner x 10 destinations incl. hex and SRID-prefix framing; wkt.Unmarshal and the 7 typed parsers; mvt.Unmarshal), on every truncation of every header, on all 0..2-byte tiles, and on seeded structure-aware mutations (truncate, bit flip, count inflation, splice, nesting, duplication, GeoJSON member edits) of valid WKB/EWKB, WKT, MVT, GeoJSON and BSON encodings. Each call runs under recover, a watchdog and a TotalAlloc delta. TLC requires: a value or an error (never a panic or hang), allocation <= 4096*len + 8 MB, and - where the reference decoder of the codec spec fixes the meaning - agreement: bytes the WKB grammar accepts decode on every path to one and the same value with stable re-encoding, properly-headed but truncated / over-counted bytes fail on every path, WKT sentences the grammar accepts and MVT command streams the state machine accepts decode to exactly the specified value. Also: well-formed BSON documents whose members have the wrong kind (number, null, document, binary, array, boolean) at both levels for every BSON entry point; one layer of 2000 keys x 3000 features (allocation must follow the input size, not keys x features); gzipped tiles whose trailer claims 0 .. 4 GB of content and gzip streams with seeded damage. Long-lived scanners see a well-formed SRID-prefixed row before every input. Blank and almost blank values of 0..12 bytes go to the scanners, WKT parsers and JSON entry points; 99..1000 genuine members stand under counts of n+1 .. 2^32-1 for every container kind, both byte orders, alone and inside multi-polygons / collections (allocation follows the bytes that are there, also once the preallocation cap is used up); extended WKT spellings (SRID=... with and without ';', Z / M suffixes), complete and cut short, also as collection members. Every container kind x member kind x member count 0 / 1 x 0..24 bytes behind the member's header; gzip in gzip (in gzip) around 64 KB .. 16 MB (32 MB thorough) of zeros; protobuf wire shapes (every wire type, groups, unknown fields, lengths and varints at the ends of their ranges, over-long varints), also inside a layer; the exported Unmarshal methods of the four generated vectortile message types count as decoders. Members of multi-geometries also in the other byte order and with stray bits (0x10, 0x20, the EWKB flag) in their type word; endless and just-ending varints in every numeric field of the tile format, correctly framed as tile > layer > feature / value; values encoded as text two and three times over (\\x, 0x, none).",
     level_note="Coverage-guided fuzzing is a different technique and not used. Byte-level garbage inside JSON / BSON / protobuf framing is handled by encoding/json, bson and protoscan (not orb code): for those inputs only value-or-error and the allocation bound are demanded. Allocation is measured single-threaded with runtime.MemStats.TotalAlloc. Trusted: TLC, Json module, runtime.MemStats, recover-based panic capture.",
     rule="one event = one input with the outcome of every decoder run on it and the bytes allocated; non-trivial = some decoder returned a value (WKB, WKT, MVT enumerations) / all raw events; distinct = distinct event text",
     assumptions=["a hang is detected by the 30 s watchdog of the harness", "fatal runtime errors (out of memory, stack exhaustion) kill the harness and are reported as a crash violation"],
